@@ -94,6 +94,12 @@ VARY_FIRST = {"solve": "cg", "symeig": "davidson", "svd": "davidson", "rootfinde
 for _fn, _m in VARY_FIRST.items():
     VARIANTS.append((_fn, _m, {"solve": "mfree", "symeig": "dense", "svd": "dense"}.get(_fn, "pure"), "vary"))
 VARIANTS.append(("quad", "leggauss", "edmod", "vary"))
+#   large   : sample / node counts well above the small ones used elsewhere (600 samples, 300 nodes): code paths
+#             chosen by a size threshold (blocked or pairwise accumulation, chunked evaluation) are executed
+for _m in ("mh", "mhcustom", "_dummy1d"):
+    VARIANTS.append(("mcquad", _m, "pure", "large"))
+    VARIANTS.append(("mcquad", _m, "edmod", "large"))
+VARIANTS.append(("quad", "leggauss", "pure", "large"))
 
 
 def cases(tier, seed):
@@ -179,6 +185,11 @@ class World:
             sc = self.sc
             sc.ts = sc.ts.detach().clone().requires_grad_()
             sc.leaves = list(sc.leaves) + [sc.ts]
+        elif var == "large":
+            if fn == "mcquad":
+                self.fwd["nsamples"] = 600
+            else:
+                self.fwd["n"] = 300
         self.vary = var == "vary"
         # (harness tensors are created here, before the baseline census)
         self.base = [l.detach().clone() for l in self.sc.leaves] if self.vary else None
